@@ -10,7 +10,9 @@ META.update({
     "level_text": "Theorem C02_limit: for every limit >= 1, 1..512 workers, any listeners and EVERY fault-free script of accept-thread calls and "
                   "environment steps (client connects, worker pick-ups, completions, commands, injected accept errors, and any of these scheduled at the "
                   "yield point between send and inc_counter) the accept loop neither panics nor spins and every worker has at most L connections in "
-                  "progress; C02_limit_at_yield extends the bound to the states inside a dispatch. The model (Model/Srv.v) is tied to the code by running "
+                  "progress; C02_limit_at_yield extends the bound to the states inside a dispatch; C02_saturated_unavailable / C02_beyond_limit_stays: "
+                  "when every worker has exactly L connections in progress no worker is flagged and an accept call on any listener returns the state "
+                  "unchanged (the connection stays in the backlog). The model (Model/Srv.v) is tied to the code by running "
                   "the same scripts on the real Accept + Counter + WakerQueue over real loopback TCP/Unix listeners (stepped driver hook) and comparing "
                   "dispatch events, per-worker queues, availability flags, pause/stop state and fault notices after every operation; the property "
                   "predicate (in-progress <= L at every step) is evaluated on the implementation trace.",
